@@ -28,11 +28,23 @@ type c11Layout struct {
 	Special                      string `json:",omitempty"` // a hand-made layout outside the product
 }
 
+// c11Bases: the base name is not a factor of the statement's product, so it must not matter — names
+// that end in letters of the extension, contain dots or blanks, or look like an extension themselves
+// rotate through the product (one in five layouts keeps "game").
+var c11Bases = []string{"game", "demo", "Tetris", "v1.0", "FIFA STREET SOS", "disc.iso", "a.b..", "osi", "I", ".hidden"}
+
+func (l c11Layout) base() string {
+	if l.Special != "" {
+		return "game"
+	}
+	return c11Bases[l.ID%len(c11Bases)]
+}
+
 func (l c11Layout) String() string {
 	if l.Special != "" {
 		return "special=" + l.Special
 	}
-	return fmt.Sprintf("dir=%s ext=%s nest=%s key=%s wm=%s len=%s", l.Dir, l.Ext, l.Nest, l.Key, l.WM, l.Len)
+	return fmt.Sprintf("dir=%s ext=%s nest=%s key=%s wm=%s len=%s base=%q", l.Dir, l.Ext, l.Nest, l.Key, l.WM, l.Len, l.base())
 }
 
 // c11Build creates the layout under root and returns the request path of the image file.
@@ -88,10 +100,10 @@ func c11Build(root string, l c11Layout) string {
 	}
 	dir := filepath.Join(root, l.Dir, sub)
 	must(os.MkdirAll(dir, 0o755))
-	must(os.WriteFile(filepath.Join(dir, "game"+l.Ext), stored, 0o644))
+	must(os.WriteFile(filepath.Join(dir, l.base()+l.Ext), stored, 0o644))
 	writeKey := func(d string, k []byte) {
 		must(os.MkdirAll(d, 0o755))
-		must(os.WriteFile(filepath.Join(d, "game.dkey"), []byte(hex.EncodeToString(k)), 0o644))
+		must(os.WriteFile(filepath.Join(d, l.base()+".dkey"), []byte(hex.EncodeToString(k)), 0o644))
 	}
 	switch l.Key {
 	case "adjacent":
@@ -102,19 +114,19 @@ func c11Build(root string, l c11Layout) string {
 		writeKey(dir, kA)
 		writeKey(filepath.Join(root, "REDKEY", sub), kR)
 	case "malformed":
-		must(os.WriteFile(filepath.Join(dir, "game.dkey"), []byte("this is not hex at all, sorry!!!"), 0o644))
+		must(os.WriteFile(filepath.Join(dir, l.base()+".dkey"), []byte("this is not hex at all, sorry!!!"), 0o644))
 	case "malformed+redkey":
 		// the adjacent key file exists (and wins) but is unusable; a good key waits in REDKEY: it must not be
 		// taken silently instead
-		must(os.WriteFile(filepath.Join(dir, "game.dkey"), []byte("0123456789abcdef"), 0o644)) // too short
+		must(os.WriteFile(filepath.Join(dir, l.base()+".dkey"), []byte("0123456789abcdef"), 0o644)) // too short
 		writeKey(filepath.Join(root, "REDKEY", sub), kR)
 	}
-	return "/" + filepath.Join(l.Dir, sub, "game"+l.Ext)
+	return "/" + filepath.Join(l.Dir, sub, l.base()+l.Ext)
 }
 
 func C11(e *Env) {
 	run := e.Run
-	run.Rule = "cases: the full finite product directory-name case {PS3ISO,ps3iso,Ps3Iso,GAMES} x extension {.iso,.ISO,.Iso,.bin} x nesting {direct, one level below} x key {none, adjacent, REDKEY, both (different), malformed, malformed adjacent + good REDKEY} x watermark {none, encrypted, decrypted} x length {<0xF70, 0xF90..0x106F, exactly 0x106F / 0x1070 / 0x1071, >=0x1070, multi-sector}; each layout is opened through the real FS.Open (sequential read + windows overlapping 0xF70..0x1070 + open-for-write pass-through) and a sample/all through the server; bytes compared with the transformation selected by the decision table transcribed from the statement; non-trivial = distinct (layout class, selected transformation)"
+	run.Rule = "cases: the full finite product directory-name case {PS3ISO,ps3iso,Ps3Iso,GAMES} x extension {.iso,.ISO,.Iso,.bin} x nesting {direct, one level below} x key {none, adjacent, REDKEY, both (different), malformed, malformed adjacent + good REDKEY} x watermark {none, encrypted, decrypted} x length {<0xF70, 0xF90..0x106F, exactly 0x106F / 0x1070 / 0x1071, >=0x1070, multi-sector}; each layout is opened through the real FS.Open (sequential read + windows overlapping 0xF70..0x1070 + open-for-write pass-through) and a sample/all through the server; image base names rotate through {game, demo, Tetris, v1.0, 'FIFA STREET SOS', disc.iso, a.b.., osi, I, .hidden} (the name is not a factor: it must not matter); bytes compared with the transformation selected by the decision table transcribed from the statement; non-trivial = distinct (layout class, selected transformation)"
 	if _, err := refcrypt.SelfCheck(); err != nil {
 		fatalf("refcrypt self-check: %v", err)
 	}
